@@ -1440,6 +1440,19 @@ def run_C15(ctx):
         r = sc.run(year, sc.request_for(sd, year, kind) if k % 4 else ['1040', 'nc_d-400'], pol)
         r['kind'], r['scenario_seed'] = kind, sd
         extra.append(r)
+    # 2021 returns with child-tax-credit dependents only solve with CONSISTENT Schedule 8812 answers (children counted on
+    # line 4a, principal abode, Letter 6419): give them explicitly, with advance payments below, at and above the credit
+    for rep in range(ctx.n(4, 12)):
+        sd = f'{ctx.seed}/c15/deps2021/{rep}'
+        pol, kind = sc.gen_policy(sd, 2021, kind='deps')
+        k = 1 + rep % 3
+        pol.fixed.update({'1040.number_dependents': str(k), 'dependent_0_ctc': 'yes', 'dependent_1_ctc': 'yes', 'dependent_2_ctc': 'yes',
+                          'dependent_3_ctc': 'yes', 'number_under_18': str(k), 'number_under_6': str(rep % 2), 'principal_abode_us': 'yes',
+                          'resident_puerto_rico': 'no', 'number_children_letter': str(k),
+                          'advance_ctc_payments': ['0', '900', '1800', '9000'][rep % 4]})
+        r = sc.run(2021, ['1040'], pol)
+        r['kind'], r['scenario_seed'] = 'deps-2021', sd
+        extra.append(r)
     # the NC consumer-use-tax worksheet with records: credit for tax paid elsewhere below, near and above the NC tax
     for year in (2021, 2022, 2023):
         for j, (purch, pct, other) in enumerate([('1000', '.0725', '95'), ('250.40', '.07', '30'), ('18000', '.075', '0'), ('5000', '.0675', '337.5')]):
